@@ -261,18 +261,39 @@ package trend
 //@ use psum_cong(ratio, miRatioS(highs, lows, m.Ema1.Period, emam(m.Ema1), m.Ema2.Period, emam(m.Ema2)), _)
 //@ ensures[C01] "documented" forall k :: 0 <= k && k < len(result) ==> result[k] == psum(miRatioS(highs, lows, m.Ema1.Period, emam(m.Ema1), m.Ema2.Period, emam(m.Ema2)), k + m.MovingSum.Period) - psum(miRatioS(highs, lows, m.Ema1.Period, emam(m.Ema1), m.Ema2.Period, emam(m.Ema2)), k)
 
+// m = (period * sumXY - sumX * sumY) / (period * sumX2 - sumX * sumX), b = (sumY - m * sumX) / period, sums over the window
+//@ stream mlsMS(x stream, y stream, P int)[k] = (winS(mulS(x, y), P)[k] * P - winS(x, P)[k] * winS(y, P)[k]) / (winS(sqS(x), P)[k] * P - winS(x, P)[k] * winS(x, P)[k])
+//@ stream mlsBS(x stream, y stream, P int)[k] = (winS(y, P)[k] - mlsMS(x, y, P)[k] * winS(x, P)[k]) / P
 //@ func Mls.Compute
 //@ requires m.Sum.Period >= 1 && consumed(x) == 0 && consumed(y) == 0 && len(x) == len(y)
 //@ ensures[C02] len(result0) == max(0, len(x) - (m.IdlePeriod())) && len(result1) == max(0, len(x) - (m.IdlePeriod()))
 //@ ensures[C03] consumed(x) == len(x) && consumed(y) == len(y) && closed(result0) && closed(result1)
 //@ ensures[C04] forall kk :: 0 <= kk && kk < len(result0) ==> hor(result0, kk) <= max(hor(x, kk + (m.IdlePeriod())), hor(y, kk + (m.IdlePeriod())))
 //@ ensures[C04] forall kk :: 0 <= kk && kk < len(result1) ==> hor(result1, kk) <= max(hor(x, kk + (m.IdlePeriod())), hor(y, kk + (m.IdlePeriod())))
+//@ step[C01] "products" forall j :: 0 <= j && j < len(x) ==> res(Operate, 0)[j] == mulS(x, y)[j] && res(Pow, 0)[j] == sqS(x)[j]
+//@ use psum_cong(res(Operate, 0), mulS(x, y), _)
+//@ use psum_cong(res(Pow, 0), sqS(x), _)
+//@ use psum_cong(xSplice[1], x, _)
+//@ use psum_cong(ySplice[1], y, _)
+//@ step[C01] "sums" forall k :: 0 <= k && k < len(result0) ==> sumXY[k] == winS(mulS(x, y), m.Sum.Period)[k] && sumXSplice[0][k] == winS(x, m.Sum.Period)[k] && sumXSplice[1][k] == winS(x, m.Sum.Period)[k] && sumXSplice[2][k] == winS(x, m.Sum.Period)[k] && sumXSplice[3][k] == winS(x, m.Sum.Period)[k] && sumYSplice[0][k] == winS(y, m.Sum.Period)[k] && sumYSplice[1][k] == winS(y, m.Sum.Period)[k] && sumX2[k] == winS(sqS(x), m.Sum.Period)[k]
+//@ step[C01] "slope" forall k :: 0 <= k && k < len(result0) ==> result0[k] == mlsMS(x, y, m.Sum.Period)[k]
+//@ step[C01] "slope-copy" forall k :: 0 <= k && k < len(result0) ==> mSplice[1][k] == mlsMS(x, y, m.Sum.Period)[k]
+//@ step[C01] "lengths" len(result1) == len(result0) && len(res(Subtract, 2)) == len(result0) && len(res(Multiply, 2)) == len(result0)
+//@ step[C01] "intercept-parts" forall k :: 0 <= k && k < len(result0) ==> res(Multiply, 2)[k] == mlsMS(x, y, m.Sum.Period)[k] * winS(x, m.Sum.Period)[k] && res(Subtract, 2)[k] == winS(y, m.Sum.Period)[k] - mlsMS(x, y, m.Sum.Period)[k] * winS(x, m.Sum.Period)[k]
+//@ step[C01] "intercept" forall k :: 0 <= k && k < len(result1) ==> result1[k] == mlsBS(x, y, m.Sum.Period)[k]
+//@ ensures[C01] "documented" forall k :: 0 <= k && k < len(result0) ==> result0[k] == mlsMS(x, y, m.Sum.Period)[k] && result1[k] == mlsBS(x, y, m.Sum.Period)[k]
 
+// y = mx + b with m, b the moving least squares slope and intercept of the window ending at the bar
 //@ func Mlr.Compute
 //@ requires m.Mls.Sum.Period >= 1 && consumed(x) == 0 && consumed(y) == 0 && len(x) == len(y)
 //@ ensures[C02] len(result) == max(0, len(x) - (m.IdlePeriod()))
 //@ ensures[C03] consumed(x) == len(x) && consumed(y) == len(y) && closed(result)
 //@ ensures[C04] forall kk :: 0 <= kk && kk < len(result) ==> hor(result, kk) <= max(hor(x, kk + (m.IdlePeriod())), hor(y, kk + (m.IdlePeriod())))
+//@ use psum_cong(xSplice[0], x, _)
+//@ use psum_cong(mulS(xSplice[0], y), mulS(x, y), _)
+//@ use psum_cong(sqS(xSplice[0]), sqS(x), _)
+//@ step[C01] "line" forall k :: 0 <= k && k < len(result) ==> ms[k] == mlsMS(x, y, m.Mls.Sum.Period)[k] && bs[k] == mlsBS(x, y, m.Mls.Sum.Period)[k]
+//@ ensures[C01] "documented" forall k :: 0 <= k && k < len(result) ==> result[k] == mlsMS(x, y, m.Mls.Sum.Period)[k] * x[k + m.Mls.Sum.Period - 1] + mlsBS(x, y, m.Mls.Sum.Period)[k]
 
 // PCDS = Ema(13, Ema(25, (Current - Prior))), APCDS = Ema(13, Ema(25, Abs(Current - Prior))), TSI = (PCDS / APCDS) * 100
 //@ stream pcS(c stream)[j] = c[j+1] - c[j]
